@@ -240,6 +240,30 @@ pub fn run(ctx: &mut Ctx) {
         }
         ctx.count_n("permutations_checked", perms.len() as u64);
 
+        // a route through replace_subject: part of the assertions sit on the subject already, the rest
+        // (possibly overlapping) on a stand-in; replacing the stand-in's subject merges them
+        if k >= 2 && !any_obscured {
+            ctx.eval();
+            ctx.count("replace_subject_merge_routes");
+            let split = rng.range(1, k - 1);
+            let mut on_subject = subject.clone();
+            for a in &asr[..split] {
+                on_subject = on_subject.add_assertion_envelope(a.clone()).unwrap();
+            }
+            let overlap = rng.chance(1, 2);
+            let mut rest = Envelope::new("stand-in-subject");
+            for a in &asr[if overlap { split - 1 } else { split }..] {
+                rest = rest.add_assertion_envelope(a.clone()).unwrap();
+            }
+            match trap::guard(|| rest.replace_subject(on_subject.clone())) {
+                Ok(merged) => {
+                    if env_bytes(&merged) != want {
+                        ctx.violation("replace-subject-merge-differs", "assertions split between the new subject and the receiver of replace_subject do not give the same envelope as adding them all to the subject", replay("replace_subject merge"));
+                    }
+                }
+                Err(p) => ctx.violation(&format!("panic/replace_subject/{}", p.signature()), &format!("{:?}", p), replay("replace_subject merge")),
+            }
+        }
         // add / remove laws along one random order
         let mut order: Vec<usize> = (0..k).collect();
         rng.shuffle(&mut order);
